@@ -90,6 +90,11 @@ class OptTimes:
                             ts = ts.tz_convert(c.rng.choice(['UTC', 'UTC', 'America/New_York', 'Asia/Tokyo']))
                         self.m[k] = ts
 
+            dated = [k for k, v in self.m.items() if v is not None]
+            if getattr(c, 'rng', None) is not None and getattr(c, 'model', None) is None and len(dated) >= 2 and c.rng.random() < 0.3:
+                # two assets entering at the SAME instant (a timeline keyed by entry date would lose one of them)
+                self.m[dated[1]] = self.m[dated[0]].tz_convert(c.rng.choice(['UTC', 'America/New_York']))
+
     def present(self, k):
         if self.c.mode == 'sym':
             return z3.Select(self.m.dom, liftk(k))
